@@ -44,6 +44,7 @@ enum ScenarioKind {
   S_BAD_WD,            // natural failure on the child side (chdir)
   S_BAD_REDIRECT_PATH, // natural failure on the parent side after some pipes exist
   S_NOT_EXECUTABLE,    // natural failure (EACCES)
+  S_DEEP_CWD,          // cwd beyond PATH_MAX + working directory + relative program: getcwd ERANGE/realloc path, ENAMETOOLONG
   S_COUNT
 };
 
@@ -52,7 +53,7 @@ inline const char *scenario_name(int s)
   static const char *n[] = { "default", "all-pipes-nonblocking", "all-discard", "paths+stderr-to-stdout", "handle/file/handle",
                              "parent-shorthand", "startup-input", "working-directory+relative-program", "env-empty+extras",
                              "env-extend+extras", "fork-mode", "file-shorthand", "parent-stream-absent", "missing-program",
-                             "bad-working-directory", "bad-redirect-path", "not-executable" };
+                             "bad-working-directory", "bad-redirect-path", "not-executable", "cwd-beyond-PATH_MAX" };
   return s >= 0 && s < S_COUNT ? n[s] : "?";
 }
 
@@ -482,6 +483,21 @@ inline Obs run(const RunConfig &cfg, const std::string &root)
     case S_BAD_REDIRECT_PATH:
       plan.eff[2] = sc::T_PATH;
       break;
+    case S_DEEP_CWD: {
+      wd = root + "/wd";
+      mkdir(wd.c_str(), 0755);
+      if (chdir(root.c_str()) != 0) o.setup_error = "chdir";
+      std::string seg(200, 'd');
+      for (int i = 0; i < 24 && o.setup_error.empty(); i++) {
+        if (mkdir(seg.c_str(), 0755) != 0 && errno != EEXIST) o.setup_error = "mkdir deep";
+        else if (chdir(seg.c_str()) != 0) o.setup_error = "chdir deep";
+      }
+      mkdir("rel", 0755);
+      if (link(hz::puppet_source_binary().c_str(), "rel/prog") != 0 && errno != EEXIST) o.setup_error = "link deep";
+      if (symlink(pup.dir().c_str(), "rel/ctl") != 0 && errno != EEXIST) o.setup_error = "symlink deep";
+      program = "rel/prog";
+      break;
+    }
     case S_NOT_EXECUTABLE:
       program = root + "/plain-file";
       detail::write_file(program, "not a program\n");
@@ -510,6 +526,22 @@ inline Obs run(const RunConfig &cfg, const std::string &root)
       int fd = open(bad_path.c_str(), O_WRONLY | O_CREAT, 0640);
       o.natural_errno = fd < 0 ? errno : 0;
       if (fd >= 0) close(fd);
+    } else if (cfg.scenario == S_DEEP_CWD) {
+      // what the documentation promises: the relative name is resolved against
+      // the parent's cwd; the harness builds that absolute name itself and
+      // asks the kernel
+      std::string abs;
+      size_t cap = 8192;
+      for (;;) {
+        std::vector<char> b(cap);
+        if (getcwd(b.data(), cap)) {
+          abs = b.data();
+          break;
+        }
+        if (errno != ERANGE || cap > (1u << 20)) break;
+        cap *= 2;
+      }
+      o.natural_errno = abs.empty() ? ENAMETOOLONG : detail::natural_errno_of(abs + "/" + program, wd.c_str());
     } else {
       o.natural_errno = detail::natural_errno_of(program, wd.empty() ? nullptr : wd.c_str());
     }
@@ -816,7 +848,7 @@ struct SweepTable {
   std::string error;
 };
 
-enum { PAIR_J_MAX = 120 };
+enum { PAIR_J_MAX = 48 };
 
 // Runs the fault-free baseline of every scenario in a forked helper (process
 // state is changed by the runs) and builds the enumeration.
